@@ -40,10 +40,10 @@ def cbIsBad (o : CbOps S E) (s : S) (i : Nat) : Bool :=
 /-- one turn of the loop -/
 def cbBody (o : CbOps S E) (deleteBad : Bool) (i : Nat) (st : S) (bad : List Nat) : (S × List Nat) × Option E :=
   match o.readLen st (.batch i) with
-  | .error e => ((st, bad), some e)
+  | .error e => ((st, []), some e)
   | .ok lb =>
     if cbResultBad o st i lb then
-      (if deleteBad then cbBind (o.remove st (.result i)) bad (fun st => ((st, bad ++ [i]), none))
+      (if deleteBad then cbBind (o.remove st (.result i)) [] (fun st => ((st, bad ++ [i]), none))
        else ((st, bad ++ [i]), none))
     else ((st, bad), none)
 
@@ -61,7 +61,7 @@ theorem checkBadSk_eq_spec (o : CbOps S E) (deleteBad : Bool) (st : S) :
   · rename_i h; rw [h]
   · rename_i h; rw [h]
     obtain ⟨r, hr⟩ : ∃ r, o.readLen st (.result i) = r := ⟨_, rfl⟩
-    cases r <;> cases deleteBad <;> simp [hr]
+    cases r <;> cases deleteBad <;> simp [hr] <;> (try grind)
 
 /-! ## loop invariants -/
 
@@ -143,7 +143,7 @@ theorem cb_reported_listed (o : CbOps S E) (deleteBad : Bool) (st : S) :
   intro i hi s a hP
   simp only [cbBody]
   rcases o.readLen s (.batch i) with e1 | lb <;> simp only []
-  · exact hP
+  · simp
   · split
     · cases deleteBad
       · simp only [Bool.false_eq_true, if_false]
@@ -157,7 +157,7 @@ theorem cb_reported_listed (o : CbOps S E) (deleteBad : Bool) (st : S) :
           rcases List.mem_append.mp hj with hj | hj
           · exact hP j hj
           · simp only [List.mem_singleton] at hj; subst hj; exact hi
-        · exact hP
+        · simp
     · exact hP
 
 end CheckBadSk
